@@ -62,9 +62,31 @@ func mintBurnSites(P *Prog) []mintBurnSite {
 // checkMintBurnOwnership: every Mint/Burn for `module` happens in one of allowed (outermost fn IDs);
 // non-constant module names are reported unless the enclosing function is in passThrough (wrappers
 // that forward their own parameter, e.g. keeper.MintCoins(ctx, coin) helpers or the bank override).
+// confirmedMintBurn: module account → function → kind → number of call sites confirmed by reading.
+// Authority is per (function, kind): a function confirmed as a burn site is not thereby allowed to mint,
+// and a second call of a confirmed kind in the same function is a new site.
+var confirmedMintBurn = map[string]map[string]map[string]int{
+	"evm": {
+		"(*x/evm/keeper.Keeper).SetBalance": {"MintCoins": 1, "BurnCoins": 1},
+	},
+	"erc20": {
+		"(x/erc20/keeper.Keeper).convertERC20NativeToken": {"MintCoins": 1},
+		"(x/erc20/keeper.Keeper).convertCoinNativeERC20":  {"BurnCoins": 1},
+		"(x/erc20/keeper.Keeper).PostTxProcessing":        {"MintCoins": 1},
+	},
+	"liquidvesting": {
+		"(x/liquidvesting/keeper.Keeper).Liquidate": {"MintCoins": 1},
+		"(x/liquidvesting/keeper.Keeper).Redeem":    {"BurnCoins": 1},
+	},
+	"coinomics": {
+		"(x/coinomics/keeper.Keeper).MintCoins": {"MintCoins": 1},
+	},
+}
+
 func checkMintBurnOwnership(r *Run, rule, module string, allowed map[string]string, floor int) {
 	P := r.P
 	n := 0
+	seen := map[string]int{}
 	for _, s := range mintBurnSites(P) {
 		owner := fnID(outermost(s.Fn))
 		if !s.Const {
@@ -79,13 +101,29 @@ func checkMintBurnOwnership(r *Run, rule, module string, allowed map[string]stri
 		}
 		n++
 		inst := owner + "#" + s.Kind + "/" + module
-		if why, ok := allowed[owner]; ok {
-			r.OK(rule, inst, P.Pos(instrPos(s.Call)), "confirmed site: "+why)
-		} else {
-			r.Bad(rule, inst, P.Pos(instrPos(s.Call)), fmt.Sprintf("%s for module account %q outside its confirmed sites (%s)", s.Kind, module, strings.Join(sortedKeysS(allowed), ", ")))
+		seen[inst]++
+		want := confirmedMintBurn[module][owner][s.Kind]
+		switch {
+		case want == 0:
+			r.Bad(rule, inst, P.Pos(instrPos(s.Call)), fmt.Sprintf("%s for module account %q in %s, which is not a confirmed %s site of that account (confirmed: %s)", s.Kind, module, owner, s.Kind, confirmedSites(module)))
+		case seen[inst] > want:
+			r.Bad(rule, inst, P.Pos(instrPos(s.Call)), fmt.Sprintf("%s for module account %q: %s contains %d such call sites, %d confirmed — an additional site", s.Kind, module, owner, seen[inst], want))
+		default:
+			r.OK(rule, inst, P.Pos(instrPos(s.Call)), "confirmed site: "+allowed[owner])
 		}
 	}
 	r.Floor(rule, "mint/burn sites for module "+module, n, floor)
+}
+
+func confirmedSites(module string) string {
+	var out []string
+	for fn, kinds := range confirmedMintBurn[module] {
+		for k := range kinds {
+			out = append(out, fn+":"+k)
+		}
+	}
+	sort.Strings(out)
+	return strings.Join(out, ", ")
 }
 
 // functions that legitimately pass a module name through (the name is their own parameter)
